@@ -223,6 +223,38 @@ def layout_pass(impl, op, rng, layout, dtype=None):
     return None
 
 
+def _layout_cases(ctx, impl, ops):
+    """Memory-layout independence for every catalogued op (operands Fortran-ordered / strided / cropped / transposed views)."""
+    import random as _random
+    np = impl.np
+    cases, distinct, mism = 0, set(), []
+    for op in ops:
+        for layout in LAYOUTS:
+            for dtype in ((np.float64,) if ctx.quick else (np.float64, np.float32)):
+                cases += 1
+                distinct.add((op.name, layout))
+                try:
+                    v = layout_pass(impl, op, _random.Random(ctx.seed), layout, dtype)
+                except Exception as ex:
+                    v = "raised %r" % (ex,)
+                if v:
+                    mism.append({"op": op.name, "layout": layout, "problem": v})
+                    ctx.witness(op.wrapper, "layout/" + layout, {"op": op.name, "layout": layout, "dtype": str(np.dtype(dtype))},
+                                "values and leaf gradients are those obtained with C-contiguous operands holding the same numbers",
+                                {"problem": v})
+    return cases, distinct, mism
+
+
+def run_layout_part(ctx):
+    """Stand-alone part (C05): the value of every catalogued op does not depend on the memory layout of its operands."""
+    from lib import impl, opcatalog
+    ops = opcatalog.catalog(impl)
+    cases, distinct, mism = _layout_cases(ctx, impl, ops)
+    ctx.tie("memory-layout independence of every catalogued op", "metamorphic", cases, len(distinct), mism, exhaustive=True,
+            note="operands as Fortran-ordered / strided / negative-stride / cropped arrays and as transposed tensor views; "
+                 "result values and leaf gradients compared with the C-contiguous run")
+
+
 def run_part(ctx):
     from lib import impl, opcatalog
     np = impl.np
@@ -312,21 +344,8 @@ def run_part(ctx):
                 ctx.witness(op.wrapper, "two-pass/" + variant, {"op": op.name, "variant": variant},
                             "leaf gradients after two backward passes through a shared result = sum of the two single-pass gradients; the caller's gradient tensor is not modified",
                             {"problem": v})
-    # memory-layout independence (operands that are Fortran-ordered / strided / cropped / transposed views)
-    for op in ops:
-        for layout in LAYOUTS:
-            for dtype in ((np.float64,) if ctx.quick else (np.float64, np.float32)):
-                cases += 1
-                distinct.add((op.name, layout))
-                try:
-                    v = layout_pass(impl, op, _random.Random(ctx.seed), layout, dtype)
-                except Exception as ex:
-                    v = "raised %r" % (ex,)
-                if v:
-                    mism.append({"op": op.name, "layout": layout, "problem": v})
-                    ctx.witness(op.wrapper, "layout/" + layout, {"op": op.name, "layout": layout, "dtype": str(np.dtype(dtype))},
-                                "values and leaf gradients are those obtained with C-contiguous operands holding the same numbers",
-                                {"problem": v})
+    c2, d2, m2 = _layout_cases(ctx, impl, ops)
+    cases += c2; distinct |= d2; mism += m2
     missing = [op.wrapper for op in ops if op.wrapper not in by_name] if summaries else []
     uncovered = [n for n in by_name if n not in set(op.wrapper for op in ops)]
     if missing:
